@@ -18,9 +18,17 @@ macro_rules! registry {
     };
 }
 
+pub mod pinned;
+pub mod progdiff;
+
 registry! {
+    c06 => "C06",
+    c07 => "C07",
+    c08 => "C08",
+    c09 => "C09",
     c10 => "C10",
     c11 => "C11",
+    c13 => "C13",
     c18 => "C18",
     c19 => "C19",
     c20 => "C20",
